@@ -192,11 +192,78 @@ CS_RULE = ("rows = successful coinswap messages executed on the real chain (ABCI
            "18-decimal fees; rejected messages (incl. recovered 256-bit overflow panics) are counted, not evaluated")
 
 
+def _cs_apalache_rows(workdir, name, extends, fields, rows, stepok, timeout=1500, max_fail=5):
+    """Same contract as vlib.apalache_steps (rows evaluated against StepOK by Apalache/Z3, failing row
+    indexes returned), but every row is its own top-level operator `R<k> == RowOK(<literals>)` instead of
+    an element of one sequence of records: Apalache's type checker is super-linear in the size of one
+    definition (369 rows x 29 fields: 12 min as a sequence, 28 s as separate definitions)."""
+    import re, glob, shutil
+
+    def lit(v, ty):
+        if ty == "Bool":
+            return "TRUE" if v else "FALSE"
+        if ty == "Str":
+            return json.dumps(str(v))
+        return str(int(v))
+    body = stepok
+    for n, _ in fields:
+        body = re.sub(r"\bs\.%s\b" % n, "x_" + n, body)
+    tys = ", ".join(t for _, t in fields)
+    args = ", ".join("x_" + n for n, _ in fields)
+    t0 = time.time()
+    live = list(range(len(rows)))
+    failing = []
+    while live:
+        defs = "\n".join("R%d == RowOK(%s)" % (k + 1, ", ".join(lit(rows[i][n], t) for n, t in fields))
+                         for k, i in enumerate(live))
+        conj = "\n".join("  /\\ (pick = %d => R%d)" % (k + 1, k + 1) for k in range(len(live)))
+        mod = f"""------------------------------ MODULE {name} ------------------------------
+EXTENDS Integers, {extends}
+VARIABLE
+  \\* @type: Int;
+  pick
+\\* @type: ({tys}) => Bool;
+RowOK({args}) ==
+{body}
+{defs}
+Init == pick \\in 1..{len(live)}
+Next == UNCHANGED pick
+Inv ==
+{conj}
+=============================================================================
+"""
+        with open(os.path.join(workdir, name + ".tla"), "w") as f:
+            f.write(mod)
+        outdir = os.path.join(workdir, "_apalache-out")
+        shutil.rmtree(outdir, ignore_errors=True)
+        try:
+            p = subprocess.run(["apalache-mc", "check", "--length=0", "--init=Init", "--next=Next", "--inv=Inv",
+                                f"--out-dir={outdir}", name + ".tla"], cwd=workdir, capture_output=True, text=True,
+                               timeout=timeout, env=dict(os.environ, JVM_ARGS="-Xmx4g"))
+        except subprocess.TimeoutExpired:
+            raise Inconclusive(f"apalache timed out on {name}")
+        out = p.stdout + p.stderr
+        if "The outcome is: NoError" in out:
+            break
+        if "The outcome is: Error" not in out:
+            raise Inconclusive(f"apalache failed on {name}:\n{out[-2000:]}")
+        vio = glob.glob(os.path.join(outdir, "**", "violation1.tla"), recursive=True)
+        m = re.search(r"State0 ==\s*pick = (\d+)", open(vio[0]).read()) if vio else None
+        if not m:
+            raise Inconclusive(f"apalache counterexample not understood for {name}")
+        k = int(m.group(1)) - 1
+        failing.append(live[k])
+        del live[k]
+        if len(failing) >= max_fail:
+            break
+    return len(rows) - len(failing), failing, time.time() - t0
+
+
 def _cs_rows(tier, seed, work, sub, cfg=""):
     vlib.build_harness("coinswapbig")
     os.makedirs(sub, exist_ok=True)
     vlib.copy_specs(sub)
-    n = {"quick": 1, "thorough": 6}[tier]
+    n = {"quick": 2 if "createrows" not in cfg else 1, "thorough": 8}[tier]
     rows_file = os.path.join(sub, "csrows.json")
     p = subprocess.run([vlib.harness_bin("coinswapbig"), "rows", "-seed", str(seed), "-n", str(n), "-out", rows_file,
                         "-cfg", cfg], capture_output=True, text=True, timeout=1800)
@@ -223,7 +290,7 @@ def _cs_strata(rows, kind):
 def _cs_eval(pid, tier, seed, work, kind, name, extends, fields, stepok, meta, allrows, describe):
     sub = os.path.join(work, "big-" + kind)
     rows = [r for r in allrows if r["kind"] == kind]
-    ok, failing, wall = vlib.apalache_steps(sub, name, extends, fields, rows, stepok)
+    ok, failing, wall = _cs_apalache_rows(sub, name, extends, fields, rows, stepok)
     ops = {}
     for r in rows:
         ops[r["op"]] = ops.get(r["op"], 0) + 1
@@ -279,10 +346,10 @@ def coinswap_big_replay(check, pid, path, work, seed):
     rows, _ = _cs_rows(tier, meta["seed"], work, sub, cfg=meta.get("cfg", ""))
     rows = [r for r in rows if r["kind"] == kind]
     if kind == "pool":
-        ok, failing, wall = vlib.apalache_steps(sub, "CoinswapBig", "CoinswapClauses", CS_FIELDS, rows, CS_STEPOK)
+        ok, failing, wall = _cs_apalache_rows(sub, "CoinswapBig", "CoinswapClauses", CS_FIELDS, rows, CS_STEPOK)
     else:
-        ok, failing, wall = vlib.apalache_steps(sub, "CoinswapSettleBig", "CoinswapSettleClauses", CSS_FIELDS, rows,
-                                                CSS_STEPOK)
+        ok, failing, wall = _cs_apalache_rows(sub, "CoinswapSettleBig", "CoinswapSettleClauses", CSS_FIELDS, rows,
+                                              CSS_STEPOK)
     if failing:
         r = rows[failing[0]]
         log(f"replay: {r['op']} in stratum {r['stratum']} (history {r['hist']} step {r['step']}) violates the {pid} clauses")
